@@ -84,6 +84,36 @@ fn check_cnf_utils(clauses: &[Clause], evals: &mut u64) -> Option<(String, Strin
             Err(p) => return Some(("is-sat-partial".into(), format!("panicked: {}", p))),
         }
     }
+    // the same over a universe that is wider than the formula: partial models (and total
+    // assignments) that also speak about one or two variables the formula does not mention
+    for extra in 1..=2usize {
+        let wide = n + extra;
+        for code in 0..3usize.pow(wide as u32) {
+            let (m, a) = pm_of(code, wide);
+            let wantp = clauses.iter().all(|c| c.iter().any(|&(v, p)| a[v] == Some(p)));
+            *evals += 1;
+            match guarded(|| cnf.is_sat_partial(&m)) {
+                Ok(r) => {
+                    if r != wantp {
+                        return Some(("is-sat-partial".into(), format!("is_sat_partial({:?}) (a model over {} variables, the formula has {}) = {}, definition gives {}", a, wide, n, r, wantp)));
+                    }
+                }
+                Err(p) => return Some(("is-sat-partial".into(), format!("panicked on a model over {} variables: {}", wide, p))),
+            }
+        }
+    }
+    for a in 0..(1usize << (n + 1)) {
+        let v = tt::assignment_vec(a, n + 1);
+        *evals += 1;
+        match guarded(|| cnf.eval(&v)) {
+            Ok(r) => {
+                if r != tt::eval(f, a & ((1 << n) - 1)) {
+                    return Some(("eval".into(), format!("eval({:?}) (an assignment over {} variables) = {}", v, n + 1, r)));
+                }
+            }
+            Err(p) => return Some(("eval".into(), format!("eval({:?}) panicked: {}", v, p))),
+        }
+    }
     // condition on every literal
     for v in 0..n {
         for b in [true, false] {
